@@ -225,6 +225,7 @@ fn run_collections(args: &Args, rep: &mut Report) {
                                     let msg = last_panic();
                                     if fallible {
                                         rep.violate("C09", format!("C09/try-method-panicked/vec<{}>::{}/{}", $name, opname, normalise_msg(&msg)), format!("additional {:#x}: {}", add, msg));
+                                        rep.violate("C19", format!("C19/fallible-method-panicked-instead-of-returning-an-error/vec<{}>::{}", $name, opname), format!("len {} additional {:#x}: {}", len0, add, msg));
                                     } else if classify_panic(&msg) == PanicClass::Other {
                                         // any panic is an acceptable refusal for an infallible method
                                         rep.bump("c19.vec_panic_other_message");
